@@ -711,6 +711,67 @@ def _unroll_table_loops(tree):
     return tree
 
 
+def _simple_operand(e) -> bool:
+    return isinstance(e, (ast.Name, ast.Constant)) or (isinstance(e, ast.Attribute) and _simple_operand(e.value))
+
+
+def _inline_single_use_temps(tree):
+    """N18: `t = <expr>` directly followed by the ONLY use of t - as the whole value of `return t` / `y = t`, or as an argument of a call whose
+    function and other arguments are plain names / constants / attribute chains - is written at the use ("extract variable" and "inline
+    variable" are the same program).  t must occur exactly twice in its function (one store, one load)."""
+    def block(body, counts):
+        out = []
+        i = 0
+        while i < len(body):
+            st = body[i]
+            nxt = body[i + 1] if i + 1 < len(body) else None
+            done = False
+            if isinstance(st, ast.Assign) and len(st.targets) == 1 and isinstance(st.targets[0], ast.Name) and nxt is not None \
+                    and isinstance(st.value, (ast.Call, ast.Attribute, ast.Subscript, ast.BinOp)) \
+                    and not any(isinstance(x, (ast.Yield, ast.YieldFrom, ast.Await, ast.NamedExpr, ast.Lambda)) for x in ast.walk(st.value)):
+                name = st.targets[0].id
+                if counts.get(name) == 2:
+                    slot = None
+                    if isinstance(nxt, ast.Return) and isinstance(nxt.value, ast.Name) and nxt.value.id == name:
+                        slot = ("value", None)
+                    elif isinstance(nxt, ast.Assign) and isinstance(nxt.value, ast.Name) and nxt.value.id == name and all(isinstance(t, ast.Name) for t in nxt.targets):
+                        slot = ("value", None)
+                    elif isinstance(nxt, (ast.Expr, ast.Assign, ast.Return)) and isinstance(getattr(nxt, "value", None), ast.Call) and _simple_operand(nxt.value.func) \
+                            and all(k.arg is not None for k in nxt.value.keywords) and not any(isinstance(a, ast.Starred) for a in nxt.value.args) \
+                            and (not isinstance(nxt, ast.Assign) or all(isinstance(t, ast.Name) for t in nxt.targets)):
+                        # operands evaluated BEFORE the slot must be plain (what comes after is evaluated after t either way)
+                        for j, a in enumerate(nxt.value.args):
+                            if isinstance(a, ast.Name) and a.id == name and all(_simple_operand(b) for b in nxt.value.args[:j]):
+                                slot = ("arg", j)
+                    if slot is not None:
+                        if slot[0] == "value":
+                            nxt.value = st.value
+                        else:
+                            nxt.value.args[slot[1]] = st.value
+                        body = body[:i] + body[i + 1:]   # re-examine: the statement that received the expression may itself be a single-use temporary
+                        done = True
+            if not done:
+                out.append(st)
+                i += 1
+            else:
+                continue
+        return out
+
+    for fn in ast.walk(tree):
+        if not isinstance(fn, (ast.FunctionDef, ast.AsyncFunctionDef)):
+            continue
+        counts = {}
+        for n in ast.walk(fn):
+            if isinstance(n, ast.Name):
+                counts[n.id] = counts.get(n.id, 0) + 1
+        for holder in ast.walk(fn):
+            for f in ("body", "orelse", "finalbody"):
+                lst = getattr(holder, f, None)
+                if isinstance(lst, list) and lst and isinstance(lst[0], ast.stmt):
+                    setattr(holder, f, block(lst, counts))
+    return tree
+
+
 def normalise(tree: ast.AST) -> ast.AST:
     tree = Normalise().visit(tree)
     tree = _unroll_table_loops(tree)
@@ -720,5 +781,6 @@ def normalise(tree: ast.AST) -> ast.AST:
     tree = _accumulate_loops(tree)
     tree = _defaultdict_groups(tree)
     tree = _unpack_of_literal_map(tree)
+    tree = _inline_single_use_temps(tree)
     ast.fix_missing_locations(tree)
     return tree
